@@ -1477,7 +1477,11 @@ class Bench:
                     pass
             return val
 
-        p.set(hap_srp, "os", Shim(real_os, urandom=urandom))
+        # equivalent spellings of the same imports are patched alike (import os / from os import urandom)
+        if hasattr(hap_srp, "os"):
+            p.set(hap_srp, "os", Shim(real_os, urandom=urandom))
+        if hasattr(hap_srp, "urandom"):
+            p.set(hap_srp, "urandom", urandom)
 
         class RecHAPSession(hap_session.HAPSession):
             def enable(self, output_key, input_key):
@@ -1533,8 +1537,14 @@ class Bench:
 
             stubs = make_stubs(LogProxy(), SymCrypto())
             for name in ("X25519PublicKey", "X25519PrivateKey", "Ed25519PublicKey", "Ed25519PrivateKey", "hkdf_expand"):
-                p.set(hap_srp, name, stubs[name])
-            p.set(hap_srp, "chacha20", Shim(hap_srp.chacha20, Chacha20Cipher8byteNonce=stubs["Cipher"]))
+                if hasattr(hap_srp, name):
+                    p.set(hap_srp, name, stubs[name])
+            if hasattr(hap_srp, "chacha20"):
+                p.set(hap_srp, "chacha20", Shim(hap_srp.chacha20, Chacha20Cipher8byteNonce=stubs["Cipher"],
+                                                Chacha20Cipher=stubs["Cipher"]))
+            for name in ("Chacha20Cipher8byteNonce", "Chacha20Cipher"):
+                if hasattr(hap_srp, name):
+                    p.set(hap_srp, name, stubs["Cipher"])
 
             def spying_parse(detail):
                 creds = parse_credentials(detail)
